@@ -9,6 +9,13 @@ use std::path::Path;
 #[path = "./mod_test.rs"]
 mod mod_test;
 
+fn is_same_path(source: &Path, target: &Path) -> bool {
+    match (source.canonicalize(), target.canonicalize()) {
+        (Ok(source_full), Ok(target_full)) => source_full == target_full,
+        _ => false,
+    }
+}
+
 #[derive(Clone)]
 pub(crate) struct CommandImpl {
     package: String,
@@ -44,7 +51,10 @@ impl Command for CommandImpl {
 
                 let target_path_str = &context.arguments[1];
 
-                if source_file {
+                if source_file && is_same_path(source_path, Path::new(target_path_str)) {
+                    // copying a file onto itself leaves it as is (fs::copy would truncate it)
+                    CommandResult::Continue(Some("true".to_string()))
+                } else if source_file {
                     match create_parent(target_path_str) {
                         Ok(_) => match fs::copy(source_path_str, target_path_str) {
                             Ok(_) => CommandResult::Continue(Some("true".to_string())),
